@@ -11,6 +11,33 @@ from ..symx import SymReal, band, bor, sym_real
 from .c18 import SymVec
 
 
+class SymRows(list):
+    """stand-in for an (n, 2) numpy array gathered from position vectors: a list of row vectors (copies, as np.array
+    copies) with the scalar arithmetic the layout code may apply to the whole array"""
+
+    def _map(self, f):
+        return SymRows([f(r) for r in self])
+
+    def __mul__(self, k): return self._map(lambda r: r * k)
+    __rmul__ = __mul__
+    def __truediv__(self, k): return self._map(lambda r: r / k)
+    def __add__(self, v): return self._map(lambda r: r + v)
+    __radd__ = __add__
+    def __sub__(self, v): return self._map(lambda r: r - v)
+
+    def _inplace(self, rows):
+        self[:] = list(rows)
+        return self
+
+    def __imul__(self, k): return self._inplace(self * k)
+    def __itruediv__(self, k): return self._inplace(self / k)
+    def __iadd__(self, v): return self._inplace(self + v)
+    def __isub__(self, v): return self._inplace(self - v)
+
+    def copy(self):
+        return SymRows([r.copy() for r in self])
+
+
 class Placement:
     """environment stub: the two networkx placement engines return an arbitrary finite position per node;
     np.linalg.norm(v) is a fresh L >= 0 with L^2 = v.v (exact reals)"""
@@ -135,7 +162,7 @@ class C19(core.Prop):
             if f is rot_f:
                 return PLACE.rotate(list(a[0]), kw['origin'] if 'origin' in kw else a[2])
             if f is real_np.array:
-                return list(a[0])
+                return SymRows([v.copy() for v in a[0]])
             if f is real_np.isclose:
                 # |a - b| <= atol + rtol * |b| with numpy's default rtol = 1e-5 (b and atol are literals in the code)
                 from fractions import Fraction
